@@ -165,6 +165,14 @@ def _safe_build(spec):
         return 0
 
 
+def _key(obj):
+    try:
+        hash(obj)
+        return obj
+    except TypeError:
+        return object()
+
+
 def _build(spec):
     c = spec['c']
     k = KIND[c]
@@ -198,9 +206,9 @@ def _build(spec):
         if c == 'deque':
             return collections.deque(items)
         if c == 'set':
-            return set(items)
+            return set(_key(i) for i in items)
         if c == 'frozenset':
-            return frozenset(items)
+            return frozenset(_key(i) for i in items)
         if c == 'dict_keys':
             return dict.fromkeys(i for i in items if _hashable_obj(i)).keys()
         if c == 'dict_values':
@@ -213,7 +221,9 @@ def _build(spec):
             return (x for x in items)
         return PYCLS[c](items)
     if k == 'map':
-        pairs = [(build(a), build(b)) for a, b in spec.get('pairs', [])]
+        # (a model may leave terms below the registered depth unconstrained: an unhashable key there is
+        # replaced by a fresh hashable object so that the object can still be built; the replay decides)
+        pairs = [(_key(build(a)), build(b)) for a, b in spec.get('pairs', [])]
         if c == 'dict':
             return dict(pairs)
         if c == 'defaultdict':
